@@ -22,6 +22,7 @@ import Gama.Lemmas.NetState
 import Gama.Lemmas.FullHist
 import Gama.Lemmas.AdjHist
 import Gama.Lemmas.AdjBuf
+import Gama.Lemmas.FullDenote
 namespace Gama.Props.C04
 open Gama Gama.C04 Gama.C04.Full Gama.C04.AdjM Gama.C04.Net
 
@@ -273,6 +274,37 @@ example :
     ∧ (hsstepWith sresetKeep (hsrunWith sresetKeep ⟨a, Full.sinit false none⟩ [.q .defect, .resetNew b]) (.q .defect)).2
         = .stale "defect"
     ∧ (hsstep (hsrun ⟨a, Full.sinit false none⟩ [.q .defect, .resetNew b]) (.q .defect)).2 = .defect := by decide
+
+/-- **Numeric meaning (`answer_denotes`, chol and gso solver entry).**  After any history incl. resets to
+    other inputs, the value denoted by the symbolic answer (`denoteF`: the numeric solver model
+    `Gama.Ls.solverOf alg` on the CURRENT problem `p`, regularised as the provenance term says) is what the
+    numeric model gives a fresh object: over the effective list on a singular system, with the configuration
+    as it stands on a regular one. -/
+theorem full_answer_denotes {K : Type} [Scalar K] (alg : Ls.Alg) (p : Ls.Problem K) (c : Ls.Reg)
+    (k : Kind) (inp0 : Full.Input) (ua : Bool) (l0 : Option (List Nat))
+    (h0 : CfgOk k inp0 ua l0) (ops : List Full.HOp) (hops : ValidF k ⟨inp0, Full.init ua l0⟩ ops)
+    (op : Full.Op) (hop : op.Ok (hfrun k ⟨inp0, Full.init ua l0⟩ ops).inp) :
+    let h := hfrun k ⟨inp0, Full.init ua l0⟩ ops
+    denoteF alg p c (hfstep k h (.q op)).2 = directF alg p c (h.inp.nullity != 0) (Full.eff h.inp h.s) false op := by
+  intro h
+  have hs := (Full.step_spec (hfrun_inv (h := ⟨inp0, Full.init ua l0⟩) h0 hops) op hop).2.1
+  show denoteF alg p c (Full.step k h.inp h.s op).2 = _
+  rw [hs]
+  exact denoteF_spec k alg p c h.inp _ op
+
+/-- … and for `AdjSVD` (`seff`: the configured subset, `none` = all: `V` stays plain) -/
+theorem svd_answer_denotes {K : Type} [Scalar K] (p : Ls.Problem K) (c : Ls.Reg)
+    (inp0 : Full.Input) (sub : Bool) (l0 : Option (List Nat))
+    (h0 : SCfgOk inp0 sub l0) (ops : List Full.HOp) (hops : ValidS ⟨inp0, Full.sinit sub l0⟩ ops)
+    (op : Full.Op) (hop : op.Ok (hsrun ⟨inp0, Full.sinit sub l0⟩ ops).inp) :
+    let h := hsrun ⟨inp0, Full.sinit sub l0⟩ ops
+    denoteF .svd p c (hsstep h (.q op)).2
+      = directF .svd p c (h.inp.nullity != 0 && (Full.seff h.s).isSome) ((Full.seff h.s).getD []) true op := by
+  intro h
+  have hs := (Full.sstep_spec (hsrun_inv (h := ⟨inp0, Full.sinit sub l0⟩) h0 hops) op hop).2.1
+  show denoteF .svd p c (Full.sstep h.inp h.s op).2 = _
+  rw [hs]
+  exact denoteF_sspec .svd p c h.inp _ op
 
 /-- **`Adj`: history freedom across inputs, with the work matrices.**  After any history of queries,
     `set_algorithm`, `set(same or other data)` every answer is the one a brand-new `Adj` with the current
